@@ -261,6 +261,15 @@ var paramTypes = []string{
 	"a.b.Type", "string = 'x'", "int = 1", "list<int> = [1, 2]",
 }
 
+// soydocLines are lines of a soydoc comment.
+var soydocLines = []string{
+	" * @param x\n", " * @param? y  An optional one.\n", " * Some text.\n", " *\n", " * @param\n", " * @param?\n", " * @param   \n", " * @param? \t \n", " * @param x y z\n", " * @param 9\n",
+	" * @param x @param y\n", "@param x\n", " * @return nothing\n", " * {@param x: int}\n", " * @param x\r\n", " * @param\u00a0x\n", " * @param? x\n * @param x\n",
+}
+
+// Postludes are ways a file may end after its last tag.
+var Postludes = []string{"// the end", "//", "// c\r", "/* unterminated", "/* c */", "/** doc", "   ", "\t", "\r\n", "\n// x", "{", "{/", "//{template .x}", "{sp}", "text"}
+
 // msgAtoms are pieces of a message body.
 var msgAtoms = []string{
 	"Hello ", "world", " ", "{$x}", "{$x.y}", "{$x|escapeUri}", "{print $y}", "<b>", "</b>", "<a href=\"{$x}\">", "</a>", "<br/>", "<img src=\"s\"/>",
@@ -282,11 +291,18 @@ func Skeleton(r *simrt.RNG) string {
 		sb.WriteString("{alias " + name() + "}\n")
 	}
 	for t, nt := 0, 1+r.Intn(3); t < nt; t++ {
-		switch r.Intn(3) {
+		switch r.Intn(4) {
 		case 0:
 			sb.WriteString("/** @param x\n * @param? y */\n")
 		case 1:
 			sb.WriteString("/** */\n")
+		case 2:
+			// a soydoc block put together from lines, ordinary and odd
+			sb.WriteString("/**\n")
+			for k, nk := 0, 1+r.Intn(4); k < nk; k++ {
+				sb.WriteString(soydocLines[r.Intn(len(soydocLines))])
+			}
+			sb.WriteString(" */\n")
 		}
 		fmt.Fprintf(&sb, "{template .%s}\n", []string{"t", "u", "a", "b"}[r.Intn(4)])
 		if r.Intn(3) == 0 {
@@ -332,6 +348,11 @@ func Skeleton(r *simrt.RNG) string {
 		if r.Intn(8) != 0 {
 			sb.WriteString("\n{/template}\n")
 		}
+	}
+	if r.Intn(5) == 0 {
+		// the file ends in something other than a newline after its last tag
+		s := strings.TrimRight(sb.String(), "\n")
+		return s + []string{"", "\n"}[r.Intn(2)] + Postludes[r.Intn(len(Postludes))]
 	}
 	return sb.String()
 }
